@@ -104,6 +104,7 @@ class Executor:
         self.fn = fn
         self.c = contract
         self.inlined = set()
+        self.used_contracts = set()
         self.reg = registry          # name -> Contract
         self.obls = []
         self.decls = {}              # const name -> sort
@@ -1704,6 +1705,7 @@ class Executor:
 
     def apply_contract(self, e, c, args, st):
         """Modular call: the caller sees the callee's contract only."""
+        self.used_contracts.add(c.name)
         params = list(c.params)
         if params and params[-1][1].startswith('Star:'):
             # *args of the callee: the remaining positional arguments become one list
